@@ -2,8 +2,10 @@
 import router, observer
 TUS = router.TUS + ['witness/w_observer.cpp']
 def run(facts, rep, tier):
-    a = router.analyse(facts, rep, 'C06')
+    a = router.analyse(facts, rep, 'C06+C13')
     observer.emit(facts, rep, ['RT.1', 'RT.2', 'RT.3', 'RT.4', 'RT.5'], {'RT.1': 40, 'RT.2': 2, 'RT.3': 40, 'RT.4': 6, 'RT.5': 5}, text=router.RULE_TEXT, res=a.res)
+    # delivery also depends on shrink never dropping a key that still has a live subscription (the removal rules of C13)
+    observer.emit(facts, rep, ['SH.1', 'SH.2', 'SH.3'], {'SH.1': 2, 'SH.2': 6, 'SH.3': 5}, text=router.RULE_TEXT, res=a.res)
     # arguments must also survive the fan-out inside one subject (SUB.4) and reach live observers once (SUB.2)
     observer.emit(facts, rep, ['SUB.4', 'SUB.2'], {'SUB.4': 5, 'SUB.2': 14})
     rep.count('Node::notify instantiations', getattr(a, 'n_notify', 0))
